@@ -1838,11 +1838,94 @@ def fold_lookup_default(fdef):
     return fdef
 
 
+def fold_test_flags(fdef):
+    """x = E ; if <test mentioning x>: ...   ->   if <test with E>: ...
+    for a local bound right before the `if` that tests it (a named boolean,
+    or the outcome of a call kept in a local first).  When x is read
+    nowhere else the binding disappears; when it is (a log line further
+    down), the binding stays and the test is rewritten only if E has no
+    call (evaluating it twice in the view would double the call)."""
+    loads, stores = {}, {}
+    for node in ast.walk(fdef):
+        if isinstance(node, ast.Name):
+            if isinstance(node.ctx, ast.Load):
+                loads[node.id] = loads.get(node.id, 0) + 1
+            else:
+                stores[node.id] = stores.get(node.id, 0) + 1
+    for node in ast.walk(fdef):
+        for extra in getattr(node, '_inline_body', None) or ():
+            for sub in ast.walk(extra):
+                if isinstance(sub, ast.Name):
+                    if isinstance(sub.ctx, ast.Load):
+                        loads[sub.id] = loads.get(sub.id, 0) + 1
+                    else:
+                        stores[sub.id] = stores.get(sub.id, 0) + 1
+
+    def has_call(expr):
+        return any(isinstance(n, (ast.Call, ast.Await, ast.Yield,
+                                  ast.YieldFrom)) for n in ast.walk(expr))
+
+    def rewrite(block):
+        out = []
+        idx = 0
+        while idx < len(block):
+            st = block[idx]
+            nxt = block[idx + 1] if idx + 1 < len(block) else None
+            done = False
+            if isinstance(st, ast.Assign) and len(st.targets) == 1 and \
+                    isinstance(st.targets[0], ast.Name) and \
+                    isinstance(nxt, ast.If) and \
+                    not hasattr(nxt.test, '_inline_body') and \
+                    stores.get(st.targets[0].id) == 1 and \
+                    isinstance(st.value, (ast.Compare, ast.BoolOp,
+                                          ast.UnaryOp, ast.Call)):
+                name = st.targets[0].id
+                in_test = sum(1 for n in ast.walk(nxt.test)
+                              if isinstance(n, ast.Name) and n.id == name)
+                inner_scopes = any(isinstance(n, (ast.Lambda, ast.ListComp,
+                                                  ast.SetComp, ast.DictComp,
+                                                  ast.GeneratorExp))
+                                   for n in ast.walk(nxt.test))
+                only_here = loads.get(name, 0) == in_test
+                if in_test == 1 and not inner_scopes and (
+                        only_here or not has_call(st.value)):
+                    value = st.value
+
+                    class Sub(ast.NodeTransformer):
+                        def visit_Name(self, node):
+                            if node.id == name and isinstance(node.ctx,
+                                                              ast.Load):
+                                return copy.deepcopy(value)
+                            return node
+                    nxt.test = Sub().visit(nxt.test)
+                    ast.fix_missing_locations(nxt.test)
+                    if not only_here:
+                        out.append(st)
+                    idx += 1        # the `if` is handled as the next item
+                    done = True
+            if not done:
+                for field in ('body', 'orelse', 'finalbody'):
+                    sub = getattr(st, field, None)
+                    if isinstance(sub, list) and sub and \
+                            isinstance(sub[0], ast.stmt) and \
+                            not isinstance(st, (ast.FunctionDef,
+                                                ast.AsyncFunctionDef,
+                                                ast.ClassDef)):
+                        setattr(st, field, rewrite(sub))
+                for hdl in getattr(st, 'handlers', None) or ():
+                    hdl.body = rewrite(hdl.body)
+                out.append(st)
+                idx += 1
+        return out
+    fdef.body = rewrite(fdef.body)
+    return fdef
+
+
 def inline_function(index, func, resolver):
     """Deep copy of func.raw with private helpers inlined; returns
     (new FunctionDef, [inlined callee names])."""
     inl = Inliner(index, resolver)
-    node = sink_result_variable(copy.deepcopy(func.raw))
+    node = sink_result_variable(fold_test_flags(copy.deepcopy(func.raw)))
     inl.fn_stored = (_stored_names(func.raw.body) -
                      _comprehension_vars(func.raw.body)) | set(
                          a.arg for a in func.raw.args.args)
